@@ -1,7 +1,7 @@
 (* Properties_C12.v — port fidelity of the Address constructors, for EVERY byte string.
    getaddrinfo parses a numeric service with strtoul (blanks, optional sign, digits) and silently reduces it modulo 65536;
    sockpuppet's part is to reject such a service before it gets there, in every position a service can be written. *)
-From SP Require Import Base ListAux AddressModel AddressLemmas AddressSpelling.
+From SP Require Import Base ListAux AddressModel AddressLemmas AddressSpelling AddressToString.
 Local Open Scope Z_scope.
 
 Lemma range_checked s : check_service_range s = None ->
@@ -75,6 +75,17 @@ Theorem uri_bracket_port_is_pair : forall h6 port,
   check_service_range port = None -> uri_dissect (bracket_port h6 port) = DOk h6 port true.
 Proof. exact AddressSpelling.uri_bracket_port_is_pair. Qed.
 
+(* text round-trip (host-name / IPv4 form): what to_string() composes in place from the host and service texts is "host:serv", and
+   parsing that text hands exactly this host and service back to the resolver — for every plain host shorter than NI_MAXHOST and
+   every in-range port text (the canonical texts themselves come from glibc's getnameinfo: observed by the correspondence) *)
+Theorem text_round_trip_v4 : forall host port,
+  forallb plain_char host = true -> host <> [] -> (length host < HOST_MAX)%nat ->
+  forallb is_digit port = true -> port <> [] -> (length port <= SERV_MAX)%nat ->
+  check_service_range port = None ->
+  to_string_model false host port = host_port host port /\
+  uri_dissect (to_string_model false host port) = DOk host port true.
+Proof. exact AddressToString.text_round_trip_v4. Qed.
+
 Example c12_nonvacuous :
   uri_dissect [57;57;57;57;57;58;47;47;49;46;50;46;51;46;52] = DExn (RuntimeErr 1) /\       (* "99999://1.2.3.4" *)
   hostserv_dissect [49;46;50;46;51;46;52] [32;43;57;57;57;57;57] = DExn (RuntimeErr 1) /\   (* ("1.2.3.4", " +99999") *)
@@ -86,6 +97,7 @@ Proof. vm_compute. repeat split; reflexivity. Qed.
 Print Assumptions no_silent_wrap_uri.
 Print Assumptions uri_host_port_is_pair.
 Print Assumptions uri_bracket_port_is_pair.
+Print Assumptions text_round_trip_v4.
 Print Assumptions no_silent_wrap_pair.
 Print Assumptions pair_service_unchanged.
 Print Assumptions port_of_encode4.
